@@ -16,8 +16,12 @@
   disagree raise `CollectiveMismatch` instead of silently exchanging garbage.
 * a rank that raises breaks the barrier, so its peers fail with `BrokenBarrierError` instead of
   hanging; a barrier timeout turns a deadlock (a rank skipping a collective) into an error.
-* `jitter`: a seed; when given, every rank sleeps a pseudo-random few microseconds before each
-  collective and threads are started in a shuffled order, so that arrival orders vary between runs.
+* `jitter`: a seed; when given, every rank sleeps a pseudo-random time before EACH collective (its
+  arrival) and again before leaving it (its departure), and threads are started in a shuffled order.
+  The sleep scale is per rank: the seed picks "straggler" ranks that sleep ten times longer, so that
+  over the seeds every rank is sometimes the last and sometimes the first to arrive.  The order in
+  which the ranks arrived at each collective is recorded (`stats` argument of run_ranks) so that the
+  harness can report how many distinct arrival orders a run really exercised.
 
 SUM / MAX / MIN are Python folds over the slot vector in rank order.
 """
@@ -77,6 +81,14 @@ class _World:
         self.barrier = threading.Barrier(size)
         self.jitter = jitter
         self.n_collectives = 0
+        self.arrivals = []            # ranks in order of arrival, P entries per collective
+        if jitter is not None:
+            wr = random.Random(int(jitter) * 104729 + 17)
+            self.scales = [(4e-4 if wr.random() < 0.34 else 4e-5) for _ in range(size)]
+            if size > 1 and wr.random() < 0.5:     # one designated straggler
+                self.scales[wr.randrange(size)] = 8e-4
+        else:
+            self.scales = [0.0] * size
 
 
 def _copy(x):
@@ -107,8 +119,9 @@ class SimComm:
             return compute([value])
         r = _tl.rank
         if w.jitter is not None:
-            time.sleep(_tl.rng.random() * 2e-5)
+            time.sleep(_tl.rng.random() * w.scales[r])
         w.slots[r] = (tag, value)
+        w.arrivals.append(r)              # list.append is atomic
         w.barrier.wait(TIMEOUT)
         try:
             tags = [s[0] for s in w.slots]
@@ -118,6 +131,8 @@ class SimComm:
         except BaseException:
             w.barrier.abort()
             raise
+        if w.jitter is not None:
+            time.sleep(_tl.rng.random() * w.scales[r] * 0.5)
         w.barrier.wait(TIMEOUT)
         if r == 0:
             w.n_collectives += 1
@@ -200,8 +215,22 @@ class RanksTimeout(RuntimeError):
     """the ranks did not finish within the wall-clock limit (deadlock or non-terminating loop)"""
 
 
-def run_ranks(P, fn, jitter=None, return_exceptions=False, timeout=None):
+def _fill_stats(stats, w):
+    if stats is None:
+        return
+    P = w.size
+    arr = list(w.arrivals)
+    orders = {tuple(arr[i:i + P]) for i in range(0, len(arr) - P + 1, P)}
+    stats["n_collectives"] = len(arr) // P
+    stats["arrival_orders"] = len(orders)
+    stats["last_arrivers"] = sorted({o[-1] for o in orders})
+    stats["orders"] = orders
+
+
+def run_ranks(P, fn, jitter=None, return_exceptions=False, timeout=None, stats=None):
     """Run fn(rank) on P rank threads of a fresh world; returns [fn(0), ..., fn(P-1)].
+    stats: optional dict, filled with n_collectives, the number of distinct arrival orders seen at the
+    collectives and the set of ranks that were last to arrive at some collective.
     If a rank raises: RankFailure (or, with return_exceptions, the exception object in its place).
     timeout (seconds, whole world): on expiry the barrier is broken -- every rank that reaches its next
     collective then fails -- and RanksTimeout is raised."""
@@ -236,6 +265,7 @@ def run_ranks(P, fn, jitter=None, return_exceptions=False, timeout=None):
                 t2.join(5.0)
             raise RanksTimeout("mpisim: ranks did not finish within %.0f s (deadlock or non-terminating loop)"
                                % (timeout if timeout is not None else TIMEOUT * 4))
+    _fill_stats(stats, w)
     if errors:
         if return_exceptions:
             return [errors.get(r, results[r]) for r in range(P)]
